@@ -1203,7 +1203,12 @@ func (db *DB) acquireReadLock(ctx context.Context) error {
 	// to the caller's context: database/sql rolls a transaction back as soon as
 	// its context is canceled (e.g. when a sync request returns), which would
 	// silently drop the read lock while db.rtx still looks held.
-	tx, err := db.db.BeginTx(context.WithoutCancel(ctx), nil)
+	// The same holds for the query that takes the lock: the re-acquisition after a
+	// checkpoint is deferred and its error ignored, so a context canceled mid-way
+	// (a sync request timing out) would leave the database without a read lock
+	// for good.
+	ctx = context.WithoutCancel(ctx)
+	tx, err := db.db.BeginTx(ctx, nil)
 	if err != nil {
 		return err
 	}
